@@ -115,7 +115,25 @@ pub struct Violation {
 /// marker payload of the panic that aborts an execution after a violation was recorded
 pub struct ViolationAbort;
 
+/// A store (or an unlock) that its thread has issued but that is not yet visible to the others.
+pub enum Pending {
+    /// (address, size in bytes, value, was it a SeqCst store)
+    Store(usize, u8, u64, bool),
+    /// a buffered mutex unlock (owns whatever keeps the mutex alive)
+    Action(Box<dyn FnOnce()>),
+}
+
 pub struct Sim {
+    /// weak-memory mode: plain atomic stores and ArcMutexGuard unlocks go through a per-thread
+    /// FIFO store buffer and become visible later (at a SeqCst fence / SeqCst load / read-modify-
+    /// write of the same thread, at any release-type operation of the simulator's primitives,
+    /// before the thread blocks, or at a random scheduling point). Every behaviour this produces
+    /// is allowed by the C++/Rust memory model (store -> later load of another location may be
+    /// reordered unless a SeqCst fence intervenes); sequentially consistent runs cannot exhibit
+    /// store-buffering outcomes at all.
+    pub weak: bool,
+    pub flush_ppm: u32,
+    sbuf: Vec<std::collections::VecDeque<Pending>>,
     pub now: u64,
     pub step_cost: u64,
     pub p_timer_ppm: u32,
@@ -154,6 +172,9 @@ pub struct Sim {
 impl Default for Sim {
     fn default() -> Self {
         Sim {
+            weak: false,
+            flush_ppm: 100_000,
+            sbuf: Vec::new(),
             now: 0,
             step_cost: 1_000,
             p_timer_ppm: 10_000,
@@ -349,6 +370,136 @@ pub fn soft_violation(property: &str, class: &str, message: String) {
     });
 }
 
+// ---- weak-memory mode: per-thread store buffers -------------------------------------------------
+
+#[inline]
+pub fn weak() -> bool {
+    active() && with(|s| s.weak)
+}
+pub fn buffer_store(addr: usize, size: u8, value: u64, seq_cst: bool) {
+    let t = me();
+    let overflow = with(|s| {
+        if s.sbuf.len() <= t {
+            s.sbuf.resize_with(t + 1, Default::default);
+        }
+        s.sbuf[t].push_back(Pending::Store(addr, size, value, seq_cst));
+        *s.probes.entry("weak.stores_buffered").or_insert(0) += 1;
+        s.sbuf[t].len() > 6
+    });
+    if overflow {
+        flush_one(t);
+    }
+}
+pub fn buffer_action(f: Box<dyn FnOnce()>) {
+    let t = me();
+    with(|s| {
+        if s.sbuf.len() <= t {
+            s.sbuf.resize_with(t + 1, Default::default);
+        }
+        s.sbuf[t].push_back(Pending::Action(f));
+        *s.probes.entry("weak.unlocks_buffered").or_insert(0) += 1;
+    });
+}
+/// store forwarding: the latest value this thread has buffered for `addr`
+pub fn forwarded(addr: usize) -> Option<u64> {
+    let t = me();
+    with(|s| {
+        s.sbuf.get(t).and_then(|b| {
+            b.iter().rev().find_map(|p| match p {
+                Pending::Store(a, _, v, _) if *a == addr => Some(*v),
+                _ => None,
+            })
+        })
+    })
+}
+pub fn has_pending_action() -> bool {
+    let t = me();
+    with(|s| s.sbuf.get(t).is_some_and(|b| b.iter().any(|p| matches!(p, Pending::Action(_)))))
+}
+fn apply(p: Pending) {
+    use std::sync::atomic::{AtomicBool, AtomicU32, AtomicU64, Ordering::SeqCst};
+    match p {
+        Pending::Store(addr, size, v, _) => unsafe {
+            match size {
+                1 => (*(addr as *const AtomicBool)).store(v != 0, SeqCst),
+                4 => (*(addr as *const AtomicU32)).store(v as u32, SeqCst),
+                _ => (*(addr as *const AtomicU64)).store(v, SeqCst),
+            }
+        },
+        // may unpark waiters (a scheduling point): never called while SIM is borrowed
+        Pending::Action(f) => f(),
+    }
+}
+fn flush_one(t: usize) -> bool {
+    match with(|s| s.sbuf.get_mut(t).and_then(|b| b.pop_front())) {
+        Some(p) => {
+            apply(p);
+            true
+        }
+        None => false,
+    }
+}
+/// make every buffered store of the current thread visible, in order
+pub fn flush_mine() {
+    if !active() {
+        return;
+    }
+    let t = me();
+    while flush_one(t) {}
+}
+/// A SeqCst load is ordered after the thread's earlier SeqCst stores (single total order of SeqCst
+/// operations) but not after its earlier release stores or unlocks: drain the buffer up to and
+/// including the last SeqCst store.
+pub fn flush_seq_cst() {
+    if !active() {
+        return;
+    }
+    let t = me();
+    loop {
+        let more = with(|s| s.sbuf.get(t).is_some_and(|b| b.iter().any(|p| matches!(p, Pending::Store(_, _, _, true)))));
+        if !more || !flush_one(t) {
+            break;
+        }
+    }
+}
+/// memory is about to be reused / exclusively accessed: flush pending stores into it (all threads)
+pub fn flush_range(base: usize, len: usize) {
+    if !active() {
+        return;
+    }
+    let n = with(|s| s.sbuf.len());
+    for t in 0..n {
+        let hit = with(|s| s.sbuf[t].iter().any(|p| matches!(p, Pending::Store(a, _, _, _) if *a >= base && *a < base + len)));
+        if hit {
+            // keep the thread's order: flush up to and including the last hit
+            loop {
+                let more = with(|s| s.sbuf[t].iter().any(|p| matches!(p, Pending::Store(a, _, _, _) if *a >= base && *a < base + len)));
+                if !more || !flush_one(t) {
+                    break;
+                }
+            }
+        }
+    }
+}
+pub fn flush_all() {
+    if !active() {
+        return;
+    }
+    let n = with(|s| s.sbuf.len());
+    for t in 0..n {
+        while flush_one(t) {}
+    }
+}
+/// block the current thread; a thread that blocks has drained its store buffer
+pub fn park() {
+    if weak() && with(|s| s.sbuf.get(me()).is_some_and(|b| !b.is_empty())) {
+        // the buffer drains "eventually": others may run before it does
+        sched_point(Site::Name("drain.before_block"));
+    }
+    flush_mine();
+    shuttle::thread::park();
+}
+
 /// Record a violation and abort the execution.
 pub fn violation(property: &str, class: &str, message: String) -> ! {
     record_violation(property, class, message);
@@ -396,6 +547,15 @@ pub fn sched_point(site: Site) {
     }
     set_site(site);
     shuttle::thread::yield_now();
+    let drain = with(|s| {
+        s.weak && {
+            let t = usize::from(shuttle::current::me());
+            s.sbuf.get(t).is_some_and(|b| !b.is_empty()) && s.shim_rng.chance_ppm(s.flush_ppm)
+        }
+    });
+    if drain {
+        flush_one(me());
+    }
     let (due, over) = with(|s| {
         s.stats.steps += 1;
         s.now += s.step_cost;
@@ -537,12 +697,14 @@ pub fn spawn_registered(role: Role, f: impl FnOnce() + Send + 'static) {
     let h = shuttle::thread::spawn(move || {
         set_role(role);
         crate::hb::acquire_token(&tok);
-        f()
+        f();
+        flush_mine();
     });
     with(|s| s.handles.push(h));
 }
 /// Join every registered thread (pool threads, clock). Called by the main thread as its last act.
 pub fn drain() {
+    flush_all();
     loop {
         let h = with(|s| s.handles.pop());
         match h {
@@ -572,6 +734,7 @@ impl Event {
         Event { flag: Cell::new(false), waiter: RefCell::new(None), sets: Cell::new(0) }
     }
     pub fn set(&self) {
+        flush_mine();
         self.flag.set(true);
         self.sets.set(self.sets.get() + 1);
         let t = self.waiter.borrow_mut().take();
@@ -604,7 +767,7 @@ impl Event {
                 return false;
             }
             set_site(Site::Name("event.wait"));
-            shuttle::thread::park();
+            park();
         }
     }
 }
@@ -620,6 +783,7 @@ unsafe impl Sync for Gate {}
 unsafe impl Send for Gate {}
 impl Gate {
     pub fn open(&self) {
+        flush_mine();
         self.open.set(true);
         let ws: Vec<Thread> = self.waiters.borrow_mut().drain(..).collect();
         for t in ws {
@@ -633,7 +797,7 @@ impl Gate {
         while !self.open.get() {
             self.waiters.borrow_mut().push(shuttle::thread::current());
             set_site(Site::Name("gate.wait"));
-            shuttle::thread::park();
+            park();
         }
     }
 }
